@@ -183,6 +183,8 @@ def build(env, spec):
         else:
             raise ValueError(st)
         m.points['x%d' % (si + 1)] = x
+    if spec['fclass'] == 'linop' and not spec.get('partition'):
+        f.T.gradient(x0)        # (a LinearOperator without any sample of its transpose makes a 0x0 LMI that cvxpy rejects)
     fx = F.value(x) if spec.get('value_metric', True) else None
     # user constraints, written in all the ways the DSL allows
     e = (x - xs) ** 2
